@@ -34,6 +34,24 @@ def _index(ctx):
     return ctx.memo("progx_index", build)
 
 
+def _split_top(t):
+    """split at commas outside angle brackets / parentheses"""
+    out, depth, cur = [], 0, ""
+    for ch in t:
+        if ch in "<([":
+            depth += 1
+        elif ch in ">)]":
+            depth -= 1
+        if ch == "," and depth == 0:
+            out.append(cur)
+            cur = ""
+        else:
+            cur += ch
+    if cur.strip():
+        out.append(cur)
+    return out
+
+
 class _InlineMixin:
     """evaluates calls into the analysed crate in place; combined with a base hooks class below"""
     MAXDEPTH = 8
@@ -53,6 +71,23 @@ class _InlineMixin:
         env = dict(zip(ps, args))
         if selfv is not None:
             env["self"] = selfv
+        # explicit type arguments (`f::<u32>()`): the function's type parameters are bound for the evaluation of its body
+        tf, self._turbofish = getattr(self, "_turbofish", None), None
+        bound = {}
+        gen = (f["sig"].get("generics") or "").strip()
+        if tf and gen.startswith("<"):
+            names = [g_.split(":")[0].strip() for g_ in _split_top(gen[1:-1]) if not g_.strip().startswith("'") and not g_.strip().startswith("const ")]
+            targs = [t_.strip() for t_ in _split_top(tf.strip().lstrip(":").strip()[1:-1]) if not t_.strip().startswith("'")]
+            if len(names) == len(targs):
+                bound = dict(zip(names, targs))
+        saved_tp = getattr(self, "tparams", {})
+        self.tparams = dict(saved_tp, **bound) if bound else saved_tp
+        try:
+            return self._inline_body(f, env)
+        finally:
+            self.tparams = saved_tp
+
+    def _inline_body(self, f, env):
         self._depth += 1
         self.ev.note_ret(f)
         inl = self.ctx.memo("inlined_fns", dict)
@@ -126,7 +161,9 @@ class _InlineMixin:
             return ("map", {})
         if segs[-1] == "default" and not args and (len(segs) == 1 or segs[-2] == "Default"):
             return ("default",)
-        if len(segs) >= 2 and segs[-2][:1].isupper():
+        if len(segs) >= 2 and segs[-2] in getattr(self, "tparams", {}):
+            segs = segs[:-2] + [lastseg(strip_generics(self.tparams[segs[-2]])), segs[-1]]       # `T::f(..)` with T bound by explicit type arguments
+        if len(segs) >= 2 and (segs[-2][:1].isupper() or (segs[-2], segs[-1]) in meth):
             st = segs[-2]
             if st == "Self":
                 st = getattr(self, "self_ty", None) or getattr(self.ev, "fn_self_ty", None)
@@ -152,6 +189,40 @@ class _InlineMixin:
         r = super().mcall(recv, m, args, e, ev)
         if r is not NotImplemented:
             return r
+        self._turbofish = e[4] if (e is not None and len(e) > 4 and isinstance(e[4], str)) else None
+        try:
+            return self._mcall(recv, m, args, e, ev)
+        finally:
+            self._turbofish = None
+
+    def _mcall(self, recv, m, args, e, ev):
+        if m == "to_string" and not args and isinstance(recv, tuple) and recv and recv[0] == "struct":
+            # a struct of the crate with its own `impl Display`: what its `fmt` writes into the formatter
+            meth, free, consts = _index(self.ctx)
+            c = [x for x in meth.get((recv[1], "fmt"), []) if lastseg(strip_generics((x.get("trait") or "").replace(" ", ""))) == "Display"]
+            if len(c) == 1:
+                ps = [q[0] for q in c[0]["sig"]["params"] if q[0] != "self"]
+                if len(ps) == 1:
+                    buf = ("fmt", [])
+                    saved = getattr(self, "self_ty", None)
+                    self.self_ty = recv[1]
+                    try:
+                        r = self.inline(c[0], [buf], recv)
+                    finally:
+                        self.self_ty = saved
+                    if r is NotImplemented:
+                        return r
+                    if not (isinstance(r, tuple) and r and r[0] == "ok"):
+                        from ..symeval import Panic
+                        raise Panic("a Display implementation returned an error")
+                    return buf
+        if m == "into" and not args:
+            # a value whose Rust type the rule's hooks know (e.g. what a decoder request returns): the crate's `impl From<that type>`
+            t_ = self.ev.h.type_of(recv) if hasattr(self.ev.h, "type_of") else NotImplemented
+            if isinstance(t_, str):
+                r = self.convert_from(lastseg(strip_generics(t_)), recv)
+                if r is not NotImplemented:
+                    return r
         if m == "into" and not args and isinstance(recv, tuple) and recv and recv[0] in ("enum", "struct"):
             # a conversion defined in the crate: `impl From<Src> for Dst` (used when exactly one such impl exists for the source type)
             r = self.convert_from(recv[1].split("::")[0] if recv[0] == "enum" else recv[1], recv)
